@@ -1,10 +1,10 @@
 SPECIFICATION Spec
 CONSTANTS
-  MaxSeq = 5
+  MaxSeq = 4
   MaxCrash = 2
   Guard = TRUE
   Tiny = FALSE
-  Queued = FALSE
+  Queued = TRUE
 INVARIANTS ReadableWhileUp Recoverable NextAbove GuardSound
 CHECK_DEADLOCK FALSE
 CONSTRAINT Bound
